@@ -1,4 +1,6 @@
-/- Driver for C02 (see `Exec/Driver.lean`). -/
+/- Driver for C02 (see `Exec/Driver.lean`; the `bi`/`dv` families of wave 3: `Exec/BuiltinDriver.lean`). -/
 import YashModel.Common.Proto
 import YashModel.Exec.Driver
-def main : IO Unit := YashModel.Proto.mainLoop YashModel.Exec.runLineFull
+import YashModel.Exec.BuiltinDriver
+def main : IO Unit := YashModel.Proto.mainLoop fun line =>
+  (YashModel.Exec.Builtins.runLine? line).getD (YashModel.Exec.runLineFull line)
